@@ -504,9 +504,10 @@ def _c19_set(seed, tier):
 # loaders / writers / references / bulk
 # ---------------------------------------------------------------------------------------------
 def _prefix_maps(rng, n, bijective=False):
-    P = ["a", "b", "A", "ab", "é", "c"]
-    Uu = ["u/", "v/", "u/a_", "ü#", "w:"]
-    out = [{}, {"a": "u/"}, {"b": "u/", "a": "u/"}, {"b": "u/", "a": "u/", "c": "v/"}, {"a": "u/", "b": "u/a_"}]
+    P = ["a", "b", "A", "ab", "é", "c", ""]
+    Uu = ["u/", "v/", "u/a_", "ü#", "w:", ""]
+    out = [{}, {"a": "u/"}, {"b": "u/", "a": "u/"}, {"b": "u/", "a": "u/", "c": "v/"}, {"a": "u/", "b": "u/a_"},
+           {"": "u/", "a": "v/"}, {"a": "", "b": "v/"}]
     for _ in range(n):
         keys = rng.sample(P, rng.choice([1, 2, 3, 4]))
         out.append({k: rng.choice(Uu) for k in keys})
@@ -520,6 +521,14 @@ def _upm(seed, tier):
     rng = random.Random(seed)
     for pm in _prefix_maps(rng, 100 if tier == "quick" else 1000):
         yield {"prefix_map": pm}
+
+
+@domain("C13.upgrade_accepted_by_strict_converter")
+def _upm_acc(seed, tier):
+    rng = random.Random(seed)
+    for pm in _prefix_maps(rng, 100 if tier == "quick" else 1000):
+        for p in list(pm) + ["zz"]:
+            yield {"pm": pm, "p": p}
 
 
 @domain("C13.upgrade_always_valid_any_order")
@@ -537,6 +546,54 @@ def _pm_denotes(seed, tier):
     rng = random.Random(seed)
     for pm in _prefix_maps(rng, 100 if tier == "quick" else 1000):
         yield {"pm": pm}
+
+
+@domain("api.Converter.from_prefix_map")
+def _fpm(seed, tier):
+    rng = random.Random(seed)
+    for pm in _prefix_maps(rng, 100 if tier == "quick" else 1000):
+        for strict in (True, False):
+            yield {"prefix_map": pm, "delimiter": rng.choice([":", ":", "/", "::"]), "strict": strict}
+
+
+@domain("api.Converter.from_extended_prefix_map")
+def _fepm(seed, tier):
+    for case in _init_cases(seed, tier):
+        yield {"records": case["records"], "delimiter": case.get("delimiter", ":"), "strict": case.get("strict", True)}
+
+
+@domain("api.Converter.from_reverse_prefix_map")
+def _frpm(seed, tier):
+    rng = random.Random(seed)
+    Uu = ["u/", "v/", "u/a_", "ü#", "w:", "x/", "uu/"]
+    yield {"reverse_prefix_map": {}, "delimiter": ":", "strict": True}
+    for _ in range(100 if tier == "quick" else 1000):
+        us = rng.sample(Uu, rng.choice([1, 2, 3, 4]))
+        for strict in (True, False):
+            yield {"reverse_prefix_map": {u: rng.choice(["a", "b", "é"]) for u in us}, "delimiter": rng.choice([":", ":", "/"]), "strict": strict}
+
+
+@domain("api.Converter.from_jsonld")
+def _fjl(seed, tier):
+    rng = random.Random(seed)
+    for pm in _prefix_maps(rng, 100 if tier == "quick" else 1000):
+        ctx = dict(pm)
+        for extra in rng.sample([("", "e/"), ("@vocab", "v/"), ("@base", "u/"), ("@x", "w:")], rng.choice([0, 1, 2])):
+            ctx[extra[0]] = extra[1]
+        ctx = {k: ctx[k] for k in rng.sample(list(ctx), len(ctx))}
+        for strict in (True, False):
+            yield {"data": {"@context": ctx}, "delimiter": rng.choice([":", ":", "/"]), "strict": strict}
+
+
+@domain("api.Converter.from_priority_prefix_map")
+def _fppm(seed, tier):
+    rng = random.Random(seed)
+    Uu = ["u/", "v/", "u/a_", "ü#", "w:", "x/"]
+    for _ in range(100 if tier == "quick" else 1000):
+        keys = rng.sample(["a", "b", "é"], rng.choice([0, 1, 2, 3]))
+        data = {k: [rng.choice(Uu) for _ in range(rng.choice([1, 1, 2, 3]))] for k in keys}
+        for strict in (True, False):
+            yield {"data": data, "delimiter": rng.choice([":", ":", "/"]), "strict": strict}
 
 
 @domain("C13.priority_map_denotes")
@@ -653,6 +710,32 @@ def _jsonld_rt(seed, tier):
         for e in (False, True):
             for inc in (False, True):
                 yield {"conv": c, "expand": e, "include_synonyms": inc}
+
+
+DOMAINS["C14.jsonld_context_any_form"] = _jsonld_rt
+
+
+@domain("api._get_jsonld_context")
+def _jctx(seed, tier):
+    for case in _jsonld_rt(seed, tier):
+        if not case["expand"]:
+            yield {"converter": case["conv"], "expand": False, "include_synonyms": case["include_synonyms"]}
+
+
+@domain("api._get_expanded_term")
+def _jterm(seed, tier):
+    for c in worlds.converters(20 if tier == "quick" else 150, seed):
+        for r in c.records:
+            yield {"record": r, "expand": False}
+
+
+@domain("C14.jsonld_plain_roundtrip_in_memory")
+def _jl_kernel(seed, tier):
+    for c in list(worlds.converters(20 if tier == "quick" else 150, seed)) + list(_safe_convs(seed, tier)):
+        names = sorted({p for r in c.records for p in [r.prefix, *r.prefix_synonyms]})
+        for inc in (False, True):
+            for p in names[:4] + ["zz"]:
+                yield {"conv": c, "include_synonyms": inc, "p": p}
 
 
 @domain("api.ReferenceTuple.from_curie")
